@@ -43,7 +43,7 @@ def print_sinosoidal(value: complex, unit: str = '', precision: int = 3, w: floa
     abs_phase_value = ScientificFloat(value=abs(degrees(phase_value)), unit='°', precision=precision) if deg else ScientificFloat(value=abs(phase_value), precision=precision)
     label = str(abs_value)
     if w == 0:
-        return label
+        return str(ScientificFloat(value=value.real, unit=unit, precision=precision, use_exp_prefix=True, exp_prefixes={-6: 'u', -3: 'm', 3: 'k'}))
     label+= '·'
     label+= 'sin' if sin else 'cos'
     label+= '('
